@@ -1,6 +1,6 @@
 """Shared analyses A3 (success continuation), A6 (effect tables), A7 (dispatch tables)."""
 import re
-from facts import callee, op_local, op_place, const_str, const_int, promoted_consts, AnchorMissing
+from facts import callee, op_local, op_place, const_str, const_int, const_bytes, promoted_consts, AnchorMissing
 import cfg
 
 ENGINE = "storage::engine::StorageEngine::"
@@ -507,6 +507,43 @@ def resolve_const_str(b, o):
             v = const_str(r["o"])
             if v is not None:
                 return v
+            l = op_local(r["o"])
+        elif r["k"] == "ref":
+            l = r["p"]["l"]
+        else:
+            return None
+    return None
+
+
+def resolve_const_bytes(b, o):
+    """byte-string literal an operand holds (b"..."), following single-definition temporaries,
+    refs, unsizing casts and promoted constants"""
+    import prov
+    v = const_bytes(o)
+    if v is not None:
+        return v
+    pc = promoted_consts(b, o)
+    if pc:
+        for c in pc:
+            if const_bytes(c) is not None:
+                return const_bytes(c)
+    l = op_local(o)
+    for _ in range(6):
+        if l is None:
+            return None
+        ds = prov.build_defs(b).get(l, ())
+        if len(ds) != 1 or ds[0][0] != "stmt":
+            return None
+        r = ds[0][2]["r"]
+        if r["k"] in ("use", "cast"):
+            v = const_bytes(r["o"])
+            if v is not None:
+                return v
+            pc = promoted_consts(b, r["o"])
+            if pc:
+                for c in pc:
+                    if const_bytes(c) is not None:
+                        return const_bytes(c)
             l = op_local(r["o"])
         elif r["k"] == "ref":
             l = r["p"]["l"]
